@@ -65,6 +65,9 @@ DateStr(t) ==
     [] t = 12 -> "19710527" [] t = 13 -> "19710808" [] t = 14 -> "19711020"
     [] t = 15 -> "19720101" [] t = 16 -> "19720314" [] t = 17 -> "19720526"
     [] t = 18 -> "19720807" [] t = 19 -> "19721019"
+    \* first-millennium dates (four-digit, zero-padded years)
+    [] t = -4850 -> "09990824" [] t = -4849 -> "09991105"
+    [] t = -9840 -> "00020423" [] t = -9839 -> "00020705"
     [] OTHER  -> "????????"
 
 \* ------------------------------------------------------------------ address spellings
